@@ -39,7 +39,7 @@ def run(pid, tier, seed, replay=None):
         good = {"weights": "ok", "ncoord": "ok", "coordlen": "ok", "index": "ok", "norder": "ok", "nknotv": "ok", "knots": "ok", "penorder": "ok", "order": "ok"}
         for d in rep[-1]["deviations"]:
             ev = rows[d["line"] - 1]
-            badargs = sorted("%s=%s" % (k, v) for k, v in ev["combo"].items() if (k in good and v != good[k]) or (k in ("nsmooth", "npen") and v == "other") or (k == "monodim" and v in ("ndim", "huge")))
+            badargs = sorted("%s=%s" % (k, v) for k, v in ev["combo"].items() if (k in good and v != good[k]) or (k in ("nsmooth", "npen") and v in ("other", "empty")) or (k == "monodim" and v in ("ndim", "huge")))
             ck.violation({"class": d["kind"], "bad": badargs, "api": ev["api"], "outcome": ev["outcome"].split(":")[0]},
                          {"what": "fit violates C13: " + d["kind"], "combo": ev["combo"], "ndim": ev["ndim"], "api": ev["api"], "outcome": ev["outcome"], "unchanged": ev["unchanged"], "detail": ev.get("detail", "")[:600]})
         ck.cov["outcomes"] = {}
